@@ -168,7 +168,7 @@ CHECKS = {
         "allowance; the histories with refusals are validated against Delivery.tla.",
    note="Lower timing bounds exact to 2 ms, upper bounds + 2 s; kernel buffers limited with SO_SNDBUF/SO_RCVBUF and granted an "
         "allowance of 4x their sum.",
-   technique="TLA+ spec (Hwm.tla, Session.tla, Delivery.tla) + TLC; TLC trace validation of recorded API calls (timeouts) and delivery histories",
+   technique="TLA+ spec (Hwm.tla, Session.tla, Egress.tla, Delivery.tla) + TLC; TLC behaviours replayed on the real write queue; TLC trace validation of recorded API calls (timeouts) and delivery histories",
    design_ref="DESIGN.md 5 (C14)"),
  "C15": dict(
    text="TLC checks Linger.tla exhaustively (socket core Lingering phase with deadline and pipe drop; session closing event, Stop, "
@@ -193,13 +193,15 @@ CHECKS = {
         "scheduler). Real sockets: close()/term() injected into blocked recv / send (no peer, full pipe), connect retries, handshakes "
         "that never complete (outbound, inbound), connections accepted at the moment of the close, streaming traffic with option / "
         "monitor calls from other tasks, inproc connect() calls racing the binder's close / term (Inproc.tla: registry, request in a "
-        "broadcast slot, one-shot reply; ConnectReturns, NoHalfOpenForever, NamesFree), and before every operation of a scripted two-socket history; afterwards every operation on "
+        "broadcast slot, one-shot reply; ConnectReturns, NoHalfOpenForever, NamesFree), API calls that go through the mailbox issued within a millisecond of "
+        "close / term of the same socket (Mailbox.tla: AllReturn under every interleaving of enqueue / look / wait with mark / drain / drop), "
+        "and before every operation of a scripted two-socket history; afterwards every operation on "
         "every closed socket, the live-actor count, a re-bind of every name. The history is validated by TLC against "
         "Trace_Lifecycle.tla (the application-visible part of Lifecycle.tla with time bounds).",
    note="Bounded = LINGER + 3 s for close()/term() and calls in flight, 1 s for operations on a closed socket; names are re-bound "
         "300-400 ms after the call returned. term()'s Ok is not trusted: its duration and the live-actor count are. Two sockets: safety "
         "only (thorough tier); liveness with one socket.",
-   technique="TLA+ spec (Lifecycle.tla) + TLC exhaustive incl. liveness and as-is variants; controlled-scheduler exploration of WaitGroup::wait; TLC trace validation (Trace_Lifecycle.tla) of recorded API histories with injected close/term",
+   technique="TLA+ specs (Lifecycle.tla, Inproc.tla, Mailbox.tla) + TLC exhaustive incl. liveness and as-is variants; controlled-scheduler exploration of WaitGroup::wait; TLC trace validation (Trace_Lifecycle.tla) of recorded API histories with injected close/term",
    design_ref="DESIGN.md 5 (C16)"),
  "C17": dict(
    text="TLC checks Isolation.tla exhaustively incl. liveness (sockets owning inbound / outbound connections, faults of every kind on "
@@ -217,7 +219,7 @@ CHECKS = {
         "judged by its observer (Trace_Monitor.tla); a rejected stream is a NOTE.",
    note="Measured gaps: -15 ms / +450 ms (100 ms maintenance tick, connect and handshake time). RECONNECT_IVL_MAX < RECONNECT_IVL is "
         "treated as not set. The connecter's loop is compared with its transcription through its ConnectRetried intervals (drift only).",
-   technique="TLA+ spec (Isolation.tla, Backoff.tla) + TLC exhaustive incl. liveness; TLC behaviours replayed on the real ReconnectState; TLC trace validation (Trace_Isolation.tla) of recorded fault-injection and reconnect runs",
+   technique="TLA+ spec (Isolation.tla, Backoff.tla, Monitor.tla) + TLC exhaustive incl. liveness; TLC behaviours replayed on the real ReconnectState; TLC trace validation (Trace_Isolation.tla) of recorded fault-injection and reconnect runs",
    design_ref="DESIGN.md 5 (C17)"),
  "C20": dict(
    text="Differential conformance against one contract: every workload (PUSH/PULL, DEALER/ROUTER, REQ/REP, PUB/SUB; 1 B .. 300 kB below / at / "
